@@ -1,5 +1,6 @@
 import Rbp.Model.Output
 import Rbp.Proofs.Faults
+import Rbp.Proofs.OutputCsv
 /-!
 # C10 — exit status 0 means complete, final-named output; any failure leaves none
 (logical core of one output file: BufWriter with capacity rule, byte budget as the write-fault parameter, explicit flush,
@@ -52,6 +53,39 @@ theorem truncated_block_is_fault (coin : Run.Coin) (size : Nat) (hs : size < 256
     Run.parseAt coin pre = .err "Unable to read block: failed to fill whole buffer" ∧
     Run.parseAt coin [] = .err "Unable to read block: failed to fill whole buffer" :=
   ⟨Run.parseAt_truncated coin size hs b hb pre suf he hsuf, Run.parseAt_nil coin⟩
+
+/-- **several output files (csvdump writes four).**  `n` buffered writers, rows written in ANY interleaving, then every writer
+    flushed, then every file renamed, then the writers dropped; per-file byte budgets (any write may fail, the final flush
+    included): success ⇒ every file is renamed and holds exactly its content with nothing left in a buffer; a reported
+    failure ⇒ NO file was renamed -/
+theorem exit0_complete_fault_no_final_n (n cap : Nat) (budget : Nat → Nat) (writes : List (Nat × Bytes)) :
+    let s := ON.exec (ON.init cap budget) (ON.prog n writes)
+    (s.ok = true → ∀ i, i < n → s.renamed i = true ∧ (s.ws i).disk = ON.content i writes ∧ (s.ws i).buf = []) ∧
+    (s.ok = false → ∀ i, s.renamed i = false) :=
+  ON.final_n n cap budget writes
+
+/-- after ANY prefix of that program (a SIGKILL at any instant), every file visible under its final name is complete -/
+theorem no_partial_final_at_any_instant_n (n cap : Nat) (budget : Nat → Nat) (writes : List (Nat × Bytes)) (k : Nat) :
+    let s := ON.exec (ON.init cap budget) ((ON.prog n writes).take k)
+    ∀ i, i < n → s.renamed i = true → (s.ws i).disk = ON.content i writes ∧ (s.ws i).buf = [] :=
+  ON.no_partial_instant_n n cap budget writes k
+
+/-- and the content of the four files in that statement is what C01 says csvdump writes: for the write program of
+    `CsvDump::on_block` (block row to file 0; per transaction its row to file 1, its input rows to file 2, its output rows to
+    file 3) the content of file `i` is the lines of the `i`-th csv file of the whole-program model, each followed by a newline -/
+theorem csvdump_write_program (ver : UInt8) (start last : Nat) (bs : List CB.EBlock) :
+    ((Run.csvFiles ver start last bs).map (·.2)) =
+      [(bs.map fun b => (Csv.rows ver b.size b.height b.blk).1), bs.flatMap (fun b => (Csv.rows ver b.size b.height b.blk).2.1),
+       bs.flatMap (fun b => (Csv.rows ver b.size b.height b.blk).2.2.1), bs.flatMap (fun b => (Csv.rows ver b.size b.height b.blk).2.2.2)] ∧
+    ON.content 0 (Run.csvWrites ver bs) = (bs.map fun b => (Csv.rows ver b.size b.height b.blk).1).flatMap Run.lineBytes ∧
+    ON.content 1 (Run.csvWrites ver bs) = (bs.flatMap fun b => (Csv.rows ver b.size b.height b.blk).2.1).flatMap Run.lineBytes ∧
+    ON.content 2 (Run.csvWrites ver bs) = (bs.flatMap fun b => (Csv.rows ver b.size b.height b.blk).2.2.1).flatMap Run.lineBytes ∧
+    ON.content 3 (Run.csvWrites ver bs) = (bs.flatMap fun b => (Csv.rows ver b.size b.height b.blk).2.2.2).flatMap Run.lineBytes :=
+  Run.csv_content ver start last bs
+
+/-- non-vacuity: two files, the second one's final flush fails: nothing is renamed, not even the first file -/
+example : (ON.exec (ON.init 10 (fun i => if i = 0 then 100 else 2)) (ON.prog 2 [(0, bytes 3), (1, bytes 3)])).ok = false ∧
+    (ON.exec (ON.init 10 (fun i => if i = 0 then 100 else 2)) (ON.prog 2 [(0, bytes 3), (1, bytes 3)])).renamed 0 = false := by decide
 
 /-- non-vacuity: a run whose budget is exhausted by the final flush -/
 example : (exec (init 10 4) (fixedProg [bytes 3, bytes 3])).ok = false ∧ (exec (init 10 4) (fixedProg [bytes 3, bytes 3])).renamed = false := by decide
